@@ -7,7 +7,7 @@ from shexer.model.IRI import IRI as ModelIRI
 from shexer.model.property import Property as ModelProperty
 from shexer.model.Literal import Literal as ModelLiteral
 from shexer.model.bnode import BNode as ModelBnode
-from shexer.consts import RDF_TYPE
+from shexer.consts import RDF_TYPE, NT, TSV_SPO, TURTLE, TURTLE_ITER
 
 
 
@@ -106,6 +106,17 @@ class RdflibSgraph(SGraph):
 
     def _build_rdflib_graph(self, source, raw_graph, format):
         result = Graph()
+        if format == TURTLE_ITER:  # sheXer's own turtle reader; rdflib knows that syntax as "turtle"
+            format = TURTLE
+        elif format == TSV_SPO:  # not an rdflib syntax: each row is an N-Triples statement with tabs and no final dot
+            if source is not None:
+                with open(source, "r") as in_stream:
+                    raw_graph = in_stream.read()
+                source = None
+            if raw_graph is not None:
+                raw_graph = "\n".join([a_line.strip().replace("\t", " ") + " ."
+                                       for a_line in raw_graph.split("\n") if a_line.strip() != ""])
+                format = NT
         if source is not None:
             result.parse(source=source, format=format)
         else:
